@@ -1,5 +1,6 @@
 """C07 - RAM and SQL datastores are observationally equivalent behind the service."""
 import collections
+import json
 
 import c07_datastore
 import speca
@@ -45,6 +46,73 @@ def rounds(ctx):
       dict(name='two_studies_d3', consts=speca.constants(MaxDepth=3, MaxDeliver=2, Studies={'s1', 's2'}, Cells={'c1', 'c2'}),
            backends={'ram': 1.0, 'sqlmem': 1.0, 'sqlfile': 0.1}),
   ]
+
+
+def _ordered_walk(job):
+  """One seeded random walk on one backend, keeping what the model abstracts away: the order of every listing and of the
+  trials in every suggestion response."""
+  import random
+  import record
+  import world
+  seed, backend, conf, kinds, length, scratch = job
+  rng = random.Random(seed)
+  w = world.World(conf, backend=backend, scratch=scratch)
+  obs = []
+  state = None
+  pending = [{'rpc': 'CreateStudy', 's': conf['Studies'][0], 'cfg': 'max1'}]
+  while len(obs) < length:
+    c = pending.pop(0) if pending else record.random_call(rng, conf, state, kinds, {'AlgoMeta': False})
+    if c is None:
+      continue
+    del world.RAW_ORDER[:]
+    resp = w.run(c)
+    resp.pop('exc', None)
+    order = list(world.RAW_ORDER) if c['rpc'] in ('SuggestTrials', 'GetOperation') else []
+    state = w.project()
+    obs.append({'call': c, 'resp': resp, 'suggestion_order': order, 'listings': w.raw_listings()})
+  return seed, backend, obs
+
+
+def ordered_differential(ctx, d):
+  """Layer 2: the same seeded walks on every backend, compared with each other directly - including what the model leaves
+  open (order of ListTrials / ListStudies, which queued or active trials a suggestion hands back and in which order): the
+  model allows several answers there, but RAM and SQL must give the same one."""
+  import concurrent.futures as cf
+  import multiprocessing
+  conf = {'Studies': ['s1', 's2'], 'Clients': ['w1', 'w2'], 'MaxId': 8, 'Cells': ['c1'], 'Recycle': 'never'}
+  kinds = ['SuggestTrials', 'SuggestTrials', 'CreateTrial', 'CreateTrial', 'CompleteTrial', 'AddMeasurement', 'StopTrial', 'DeleteTrial', 'DeleteTrial',
+           'UpdateMetadata', 'CreateStudy', 'DeleteStudy', 'SetStudyState', 'CheckEarlyStopping']
+  n = 120 if ctx.thorough else 40
+  length = 30
+  jobs = [(ctx.seed * 1000 + i, b, conf, kinds, length, d) for i in range(n) for b in BACKENDS]
+  by = {}
+  with cf.ProcessPoolExecutor(max_workers=16, mp_context=multiprocessing.get_context('fork')) as ex:
+    for seed, backend, obs in ex.map(_ordered_walk, jobs, chunksize=2):
+      by.setdefault(seed, {})[backend] = obs
+  bad = 0
+  reordered = 0
+  for seed, per in sorted(by.items()):
+    ref_b = BACKENDS[0]
+    for b in BACKENDS[1:]:
+      for k, (x, y) in enumerate(zip(per[ref_b], per[b])):
+        if x != y:
+          bad += 1
+          what = ('call' if x['call'] != y['call'] else 'response' if x['resp'] != y['resp'] else
+                  'suggestion_order' if x['suggestion_order'] != y['suggestion_order'] else 'listing_order')
+          if bad <= 3:
+            ctx.violation({'via': 'differential', 'what': what, 'rpc': x['call']['rpc'], 'backends': '%s/%s' % (ref_b, b)},
+                          {'kind': 'differential', 'seed': seed, 'step': k, 'conf': conf, 'calls': [o['call'] for o in per[ref_b][:k + 1]],
+                           ref_b: {kk: x[kk] for kk in ('resp', 'suggestion_order', 'listings')}, b: {kk: y[kk] for kk in ('resp', 'suggestion_order', 'listings')}})
+          break
+    for o in per[ref_b]:
+      for v in o['listings'].values():
+        if isinstance(v, list) and v and isinstance(v[0], int) and v != sorted(v):
+          reordered += 1
+  layer = {'walks': n, 'length': length, 'backends': list(BACKENDS), 'first_differences': bad, 'listings_not_in_id_order_seen': reordered}
+  ctx.log('  differential walks: %d seeds x %d backends x %d calls, raw order compared; differences: %d' % (n, len(BACKENDS), length, bad))
+  ctx.coverage['ordered_differential'] = layer
+  ctx.coverage['traces_validated_against_impl'] += n * len(BACKENDS)
+  return layer
 
 
 def run(ctx):
@@ -103,6 +171,8 @@ def run(ctx):
         cov['identical_divergences_all_backends'] = cov.get('identical_divergences_all_backends', 0) + agree_all
       if recs:
         ctx.sample({'config': r['name'], 'history': recs[(ctx.seed * 7919 + 3) % len(recs)]['hist']})
+  with tlc.Scratch('c07d') as d2:
+    ordered_differential(ctx, d2)
   # recorded walks: the same seeds on every backend, each validated by the trace spec
   conf = {'Studies': ['s1', 's2'], 'Clients': ['w1', 'w2'], 'MaxId': 8, 'Cells': ['c1', 'c2'], 'Recycle': 'never'}
   kinds = speca.ALL_KINDS + ['DeleteStudy', 'CreateStudy', 'UpdateMetadata', 'UpdateMetadata', 'SuggestTrials', 'SuggestTrials']
@@ -147,6 +217,25 @@ def replay(ctx, case):
     else:
       print('replay: %s now follows the datastore contract on this history' % c['backend'])
     ctx.coverage.update({'states': 1, 'transitions': 1, 'traces_validated_against_impl': 1})
+    return
+  if c.get('kind') == 'differential':
+    import world
+    obs = {}
+    with tlc.Scratch('c07') as d:
+      for b in BACKENDS:
+        w = world.World(c['conf'], backend=b, scratch=d)
+        for call in c['calls']:
+          del world.RAW_ORDER[:]
+          resp = w.run(call)
+          resp.pop('exc', None)
+        obs[b] = {'resp': resp, 'suggestion_order': list(world.RAW_ORDER) if c['calls'][-1]['rpc'] in ('SuggestTrials', 'GetOperation') else [],
+                  'listings': w.raw_listings()}
+    if any(obs[b] != obs[BACKENDS[0]] for b in BACKENDS):
+      ctx.violation(dict(case['sig']), c)
+      print('replay: backends still differ: %s' % json.dumps(obs)[:600])
+    else:
+      print('replay: all backends now give the same raw observations on this history')
+    ctx.coverage.update({'states': 1, 'transitions': 1, 'traces_validated_against_impl': len(BACKENDS)})
     return
   if c.get('kind') == 'replay':
     import world
